@@ -22,6 +22,10 @@ DRIVER = str(VERIF / "_build" / "driver")
 if sys.path[0] != REPO:
     sys.path.insert(0, REPO)
 
+import logging  # noqa: E402
+
+logging.getLogger("rdflib").setLevel(logging.CRITICAL)
+logging.getLogger("rdflib.term").setLevel(logging.CRITICAL)
 import pyjelly  # noqa: E402
 from pyjelly import jelly  # noqa: E402
 from pyjelly.integrations.generic import generic_sink as gs  # noqa: E402
